@@ -894,8 +894,9 @@ func genMixed(j int64, r *rand.Rand) *plan {
 }
 
 func genPlan(i int64, r *rand.Rand) *plan {
+	// the class rotates against the index so that every batch layout sees all classes
 	j := i / 8
-	switch i % 8 {
+	switch (i + i/16 + i/256) % 8 {
 	case 0:
 		return genBacklog(j, r)
 	case 1:
@@ -967,5 +968,5 @@ func TestC37(t *testing.T) {
 	m.Gate("probe_after_close_returned", 200, "forward for an address whose listener's Close has returned")
 	m.Gate("listen_port0_server_assigned", 60, "port 0 request answered with a server-assigned port")
 	m.Gate("listen_equal_address_again", 40, "same address registered twice")
-	m.Gate("delivered_open_sent_before_listen_returned_or_rejected", 20, "forward sent between the server's success reply and Listen's return")
+	m.Gate("burst_at_registration_resolved", 20, "forward sent between the server's success reply and Listen's return")
 }
